@@ -34,7 +34,7 @@ MANIFEST = {
     "technique": "Lean 4 proof by induction on a format DSL; generated dispatch tables; differential correspondence; round-trip/framing oracle",
 }
 
-FRAMING_KINDS = ("truncate", "length", "inner-trailing", "outer-trailing")
+FRAMING_KINDS = ("truncate", "length", "inner-trailing", "outer-trailing", "dup-ext")
 
 
 # ------------------------------------------------------------------ running the real code
@@ -117,6 +117,39 @@ def dup_ext_types(f, v, t=0):
     return False
 
 
+def dup_first_ext(f, v, t=0):
+    """v with the first item of its first non-empty repetition of tagged items appended once more
+    (the same extension type twice in one block); None when there is no such repetition"""
+    k = f[0]
+    if k == 'p':
+        a = dup_first_ext(f[1], v[1], t)
+        if a is not None:
+            return V.P(a, v[2])
+        b = dup_first_ext(f[2], v[2], t)
+        return None if b is None else V.P(v[1], b)
+    if k == 'L':
+        return dup_first_ext(f[2], v, t)
+    if k == 'O':
+        if v[0] != 'S':
+            return None
+        x = dup_first_ext(f[1], v[1], t)
+        return None if x is None else V.S(x)
+    if k == 'M':
+        if f[1][0] == 'T' and v[1]:
+            return V.L(list(v[1]) + [v[1][0]])
+        for i, x in enumerate(v[1]):
+            y = dup_first_ext(f[1], x, t)
+            if y is not None:
+                return V.L(list(v[1][:i]) + [y] + list(v[1][i + 1:]))
+        return None
+    if k == 'T':
+        x = dup_first_ext(f[2], v[2], v[1][1])
+        return None if x is None else V.P(v[1], x)
+    if k == 'C':
+        return dup_first_ext(V.select(f, t), v, t)
+    return None
+
+
 def real_parse(ent, data):
     try:
         with time_limit():
@@ -170,8 +203,11 @@ class Run(object):
                 self.ctx.disagree("format-missing-in-model", n, r, "entry")
                 continue
             txt, exact = r.rsplit(" ", 1)
-            self.trees[n] = V.parse_fmt(txt)
+            if txt != "-":
+                self.trees[n] = V.parse_fmt(txt)
             self.ctx.compared()
+            if txt == "-":
+                continue                      # hand-written model (SSLv2 structures): no format tree
             if (exact == "true") != self.ents[n].exact:
                 self.ctx.disagree("exact-flag", n, exact, self.ents[n].exact)
 
@@ -230,7 +266,7 @@ class Run(object):
         if ent.exact and consumed != len(data):
             flagged = viol("trailing-bytes-accepted", "parser handed exactly the structure left %d bytes unread"
                            % (len(data) - consumed))
-        if ent.hstype is not None and len(data) >= 3 and consumed != 3 + int.from_bytes(data[:3], "big"):
+        if ent.hstype is not None and ent.hs_len and len(data) >= 3 and consumed != 3 + int.from_bytes(data[:3], "big"):
             flagged = viol("length-header-mismatch", "consumed %d bytes, handshake length says %d"
                            % (consumed, int.from_bytes(data[:3], "big")))
         if consumed > len(data):
@@ -240,11 +276,7 @@ class Run(object):
                            "parse(write(v)) != v: wrote %s, parsed %s" % (V.render(value)[:200], V.render(val)[:200]))
         # write(parse(x)) must be the consumed bytes
         wr = real_write(ent, obj)
-        tree = self.trees.get(ent.name)
-        if wr[0] != "ok" and kind not in ("valid", "oversize") and tree is not None and dup_ext_types(tree, val):
-            # a mutant that repeats an extension type: not a well-formed message, write() may refuse it
-            self.note("%s: accepted mutant with a repeated extension type is refused by write()" % cls, rep)
-        elif wr[0] != "ok":
+        if wr[0] != "ok":
             if kind == "byte":
                 # a value the parser accepts and write() refuses, reached by changing content only
                 self.note("%s: accepted byte-mutant cannot be serialised again (%s)" % (cls, wr[0]), rep)
@@ -371,10 +403,6 @@ class Run(object):
                 if m.startswith("ok "):
                     _, vt, unread = m.split(" ")
                     mval = V.parse_val(vt)
-                    tree = self.trees.get(ent.name)
-                    if res[0] == "decode_error" and tree is not None and dup_ext_types(tree, mval):
-                        self.note("%s: repeated extension type refused by the parser" % ent.cls, {"bytes": data.hex()[:200]})
-                        continue
                     mv = ("ok", ent.norm(mval), len(data) - int(unread))
                 else:
                     mv = (m,)
@@ -427,6 +455,13 @@ def values_for(run, ent, tree):
         for t in tags:
             for mode in ("min", "one", "rand") + (("rand", "max") if ctx.thorough() else ()):
                 yield "valid", wf(g.gen_tagged(tree, t, mode))
+        if ent.name.startswith("ext:"):
+            # extensions the library has no class for (kept as opaque TLSExtension): encrypt_then_mac,
+            # extended_master_secret, early_data, post_handshake_auth - empty on the wire, and with a body
+            for t in (22, 23, 42, 49):
+                if t not in [k for k, _ in keys]:
+                    yield "valid", V.P(V.N(t), V.B(b""))
+                    yield "valid", V.P(V.N(t), V.B(g.rb(4)))
     else:
         for mode in ("min", "one", "max"):
             yield "valid", wf(g.gen(tree, mode))
@@ -909,24 +944,36 @@ def do_format(r, name):
     ctx = r.ctx
     ent = r.ents[name]
     tree = r.trees.get(name)
-    if tree is None:
+    if tree is None and ent.custom_values is None:
         return
     encs = []
-    for kind, v in values_for(r, ent, tree):
+    for kind, v in (ent.custom_values(r) if ent.custom_values is not None else values_for(r, ent, tree)):
         b = r.value_case(ent, kind, v)
         if b is not None and kind == "valid":
             encs.append(b)
+    # the same extension type twice in one block: serialised by the model (write() of some classes
+    # refuses such a value), must be refused by the real parser
+    if r.lc is not None and tree is not None:
+        dups = []
+        for _ in range(ctx.pick(6, 30)):
+            dv = dup_first_ext(tree, ent.wellformed(r.gen.gen(tree, "rand"), ctx.rng))
+            if dv is not None:
+                dups.append(dv)
+        if dups:
+            for dv, m in zip(dups, r.ask_many(["enc %s %s" % (ent.model_name, V.render(dv)) for dv in dups])):
+                if m.startswith("ok "):
+                    r.bytes_case(ent, "dup-ext", unhx(m[3:]))
     uniq = list(dict.fromkeys(encs))
     big = [b for b in uniq if len(b) > 2000]
     small = [b for b in uniq if len(b) <= 2000]
     use = small + big[:ctx.pick(1, 6)]
-    lens = r.lens_of(ent, use)
+    lens = [ent.custom_lens(b) for b in use] if ent.custom_lens is not None else r.lens_of(ent, use)
     for b, ls in zip(use, lens):
         large = len(b) > 2000
         huge = len(b) > 1000000
         for kind, m in V.mutants(b, ls, ctx.rng, small_limit=ctx.pick(160, 400), all_bytes=not large,
                                  max_trunc=None if len(b) <= 600 else (2 if huge else ctx.pick(6, 16)),
-                                 few=huge or (large and not ctx.thorough())):
+                                 few=huge or (large and not ctx.thorough()), inner=ent.custom_lens is None, few_bytes=not ctx.thorough()):
             r.bytes_case(ent, kind, m)
     r.flush()
 
